@@ -19,6 +19,12 @@
    delete (oci.go:206-230)   untag every reference of the descriptor, graph.Remove,
                              storage.Delete.  Store.Delete with AutoGC is a sequence of
                              these steps (referrers and danglings are queued).
+                             [reroot = true]: every dangling manifest reported by graph.Remove
+                             that has no by-digest entry gets one (it stays listed in index.json
+                             until it is deleted itself); [reroot = false] is the code without that.
+   Foreign                   the store is closed, index.json is replaced from outside by one that
+                             lists only some roots (other tools list only the tagged / top-level
+                             manifests) and the layout is opened again (loadIndex).
    GC (oci.go:467-583)       gcIndex: fresh resolver and graph; IndexAll for the tagged
                              manifests, then for the by-digest-only manifests whose subject
                              chain reaches the new graph ([kept]: which ones depends on the
@@ -56,12 +62,13 @@ Definition osave (s : ostore) : ostore :=
 
 Inductive oop :=
 | PPush (n : node) | PTag (n : node) | PUntag (n : node) | PDelete (n : node)
-| PGC (kept : list node) | PReopen.
+| PGC (kept : list node) | PReopen
+| PForeign (roots : list node).   (* index.json rewritten from outside: tagged entries + these *)
 
 Definition o_sok (isman : node -> bool) (s : ostore) : node -> bool :=
   fun x => negb (isman x) || smem x (o_blobs s).
 
-Definition ostep (fixed save_late : bool) (content : node -> list node) (isman : node -> bool)
+Definition ostep (fixed save_late reroot : bool) (content : node -> list node) (isman : node -> bool)
            (fuel : nat) (s : ostore) (o : oop) : ostore * bool :=
   match o with
   | PPush n =>
@@ -81,10 +88,14 @@ Definition ostep (fixed save_late : bool) (content : node -> list node) (isman :
       (osave (mkO (o_blobs s) (o_bydigest s) (sdel n (o_tagged s)) (o_graph s)
                   (o_dbydigest s) (o_dtagged s)), true)
   | PDelete n =>
-      let s' := mkO (sdel n (o_blobs s)) (sdel n (o_bydigest s)) (sdel n (o_tagged s))
-                    (fst (remove (o_graph s) n)) (o_dbydigest s) (o_dtagged s) in
-      (* `if untagged && s.AutoSaveIndex { saveIndex }` *)
-      if smem n (o_bydigest s) || smem n (o_tagged s) then (osave s', true) else (s', true)
+      let (g', dang) := remove (o_graph s) n in
+      (* [reroot]: a manifest that loses its last predecessor gets a by-digest entry *)
+      let rr := if reroot then filter (fun d => isman d && negb (smem d (o_bydigest s))) dang else [] in
+      let s' := mkO (sdel n (o_blobs s)) (rr ++ sdel n (o_bydigest s)) (sdel n (o_tagged s))
+                    g' (o_dbydigest s) (o_dtagged s) in
+      (* `if (untagged || rerooted) && s.AutoSaveIndex { saveIndex }` *)
+      if smem n (o_bydigest s) || smem n (o_tagged s) || negb (match rr with [] => true | _ => false end)
+      then (osave s', true) else (s', true)
   | PGC kept =>
       let roots := o_tagged s ++ kept in
       let (g', ok) := load content (o_sok isman s) fuel roots in
@@ -100,21 +111,80 @@ Definition ostep (fixed save_late : bool) (content : node -> list node) (isman :
       let (g', ok) := load content (o_sok isman s) fuel roots in
       if ok then (mkO (o_blobs s) roots (o_dtagged s) g' (o_dbydigest s) (o_dtagged s), true)
       else (s, false)
+  | PForeign roots =>
+      (* the foreign index must account for every stored manifest: listed, tagged, or child
+         of a stored manifest (anything else is unlisted garbage of that layout) *)
+      if forallb (fun p => negb (isman p) || smem p roots || smem p (o_tagged s) ||
+                           existsb (fun q => isman q && smem p (content q)) (o_blobs s)) (o_blobs s)
+      then
+        let all := o_tagged s ++ roots in
+        let (g', ok) := load content (o_sok isman s) fuel all in
+        if ok then (mkO (o_blobs s) all (o_tagged s) g' roots (o_tagged s), true) else (s, false)
+      else (s, false)
   end.
 
-Fixpoint orun fixed save_late content isman fuel (s : ostore) (ops : list oop) : ostore * bool :=
+Fixpoint orun fixed save_late reroot content isman fuel (s : ostore) (ops : list oop) : ostore * bool :=
   match ops with
   | [] => (s, true)
-  | o :: r => let (s1, ok1) := ostep fixed save_late content isman fuel s o in
-              let (s2, ok2) := orun fixed save_late content isman fuel s1 r in (s2, ok1 && ok2)
+  | o :: r => let (s1, ok1) := ostep fixed save_late reroot content isman fuel s o in
+              let (s2, ok2) := orun fixed save_late reroot content isman fuel s1 r in (s2, ok1 && ok2)
   end.
 
 (* Is index.json written by Store.GC AFTER the digest references of the reachable content
    have been restored?  Read off the source on every run: Generated.GC07.calls_GC is the
-   source-order sequence of the calls s.gcIndex / s.tagResolver.Tag / s.saveIndex in
-   Store.GC (translator kind "callseq"). *)
+   source-order sequence of the calls s.gcIndex / s.graph.Exists / s.tagResolver.Resolve /
+   s.tagResolver.Tag (the restoration loop) / s.saveIndex / os.ReadDir (the sweep) in Store.GC (translator kind "callseq"). *)
 Definition gc_save_after_restore : bool :=
   match calls_GC with
-  | [a; t; w] => str_eqb a (b "s.gcIndex") && str_eqb t (b "s.tagResolver.Tag") && str_eqb w (b "s.saveIndex")
+  | [a; e; r; t; w; d; d2] =>
+      str_eqb a (b "s.gcIndex") && str_eqb e (b "s.graph.Exists") && str_eqb r (b "s.tagResolver.Resolve")
+      && str_eqb t (b "s.tagResolver.Tag") && str_eqb w (b "s.saveIndex") && str_eqb d (b "os.ReadDir")
+      && str_eqb d2 (b "os.ReadDir")
   | _ => false
   end.
+
+(* Does Store.delete give a by-digest entry to the dangling manifests before it saves the
+   index?  Generated.GC07.calls_delete_c07 = source-order calls of s.graph.Remove /
+   s.tagResolver.Tag / s.saveIndex / s.storage.Delete in Store.delete. *)
+Definition delete_reroots : bool :=
+  match calls_delete_c07 with
+  | [r; t; w; d] => str_eqb r (b "s.graph.Remove") && str_eqb t (b "s.tagResolver.Tag")
+                    && str_eqb w (b "s.saveIndex") && str_eqb d (b "s.storage.Delete")
+  | _ => false
+  end.
+
+(* ---- content/file.Store.Push (file.go): push (store the bytes: named file or fallback CAS;
+   may refuse: duplicate name, overwrite disallowed, IgnoreNoName discards), graph.Index, and
+   restoreDuplicates (write the successors that are listed under another name; may fail: a
+   name that cannot be written).  [stored]/[restored] are the outcomes of the first and the
+   last step, chosen by the environment; [index_first] is the order of the other two
+   (true = the code after "fix: file store indexes pushed content before restoring
+   duplicated files"); a Push of stored content is refused (already exists / duplicate name). *)
+Record fstore := mkF { f_blobs : list node; f_graph : graph }.
+Definition empty_fstore : fstore := mkF [] empty_graph.
+Inductive fop := FPush (n : node) (stored restored : bool).
+Definition fstep (index_first : bool) (content : node -> list node) (s : fstore) (o : fop) : fstore :=
+  match o with
+  | FPush n stored restored =>
+      if smem n (f_blobs s) || negb stored then s
+      else if index_first || restored
+           then mkF (n :: f_blobs s) (index (f_graph s) n (content n))
+           else mkF (n :: f_blobs s) (f_graph s)
+  end.
+Definition frun index_first content (ops : list fop) : fstore :=
+  fold_left (fstep index_first content) ops empty_fstore.
+Definition file_index_first : bool :=
+  match calls_filePush with
+  | [p; i; r] => str_eqb p (b "s.push") && str_eqb i (b "s.graph.Index") && str_eqb r (b "s.restoreDuplicates")
+  | _ => false
+  end.
+
+(* A Delete whose storage.Delete fails AFTER the resolver entries, the graph node and
+   index.json were already updated (oci.go delete(): Untag, graph.Remove, saveIndex, then
+   storage.Delete; e.g. EPERM / a file still open on NTFS): the blob stays.  Not part of
+   [oop]: the theorems are about histories of operations that complete; see
+   C07_store_delete_error_refuted. *)
+Definition delete_unlink_fails (content : node -> list node) (isman : node -> bool)
+           (s : ostore) (n : node) : ostore :=
+  let s' := fst (ostep true true true content isman 0 s (PDelete n)) in
+  mkO (o_blobs s) (o_bydigest s') (o_tagged s') (o_graph s') (o_dbydigest s') (o_dtagged s').
